@@ -261,6 +261,20 @@ Theorem C14_absolute_path_strings_injective : forall dirs p1 p2,
 Proof. exact abs_key_injective. Qed.
 Print Assumptions C14_absolute_path_strings_injective.
 
+(* distinct files of the project have distinct path strings under EVERY spelling of the target (absolute, relative to a directory of the
+   project, relative to a directory above it), so the hypothesis of the memo theorems holds for the paths a run hands to lint_file *)
+Theorem C14_spelled_path_strings_injective : forall sp p1 p2,
+  comps_ok (spelled sp p1) -> comps_ok (spelled sp p2) -> no_dotdot p1 -> no_dotdot p2 ->
+  pjoin (spelled sp p1) = pjoin (spelled sp p2) -> p1 = p2.
+Proof. exact spelled_key_injective. Qed.
+Print Assumptions C14_spelled_path_strings_injective.
+
+Theorem C14_named_files_with_memo_any_spelling : forall q abs sp s ps,
+  Forall (fun p => comps_ok (spelled sp p) /\ no_dotdot p) ps ->
+  fst (run_seq_memo (fun p => pjoin (spelled sp p)) q abs (load_patterns q s) (chk_file q sp) [] ps) = run_files q abs sp s ps.
+Proof. exact run_files_with_memo_spelled. Qed.
+Print Assumptions C14_named_files_with_memo_any_spelling.
+
 Theorem C14_ignore_memo_shape : ignore_cache_per_instance = true /\ ignore_cache_keyed_by_path_str = true.
 Proof. exact ignore_cache_shape. Qed.
 Print Assumptions C14_ignore_memo_shape.
